@@ -75,9 +75,22 @@ impl<'a, W: Write> DocumentPrinter<'a, W> {
     /// Prints the given doc comments.
     pub fn docs(&mut self, docs: &[DocComment]) -> std::fmt::Result {
         for doc in docs {
-            for line in doc.comment.lines() {
+            // An empty comment is a single empty line (`str::lines` yields nothing for it).
+            let comment = if doc.comment.is_empty() {
+                "\n"
+            } else {
+                doc.comment
+            };
+
+            for line in comment.lines() {
+                let line = line.trim();
                 self.indent()?;
-                write!(self.writer, "/// {line}", line = line.trim())?;
+                if line.is_empty() {
+                    // No trailing space: `/// ` would be read back as an empty comment
+                    write!(self.writer, "///")?;
+                } else {
+                    write!(self.writer, "/// {line}")?;
+                }
                 self.newline()?;
             }
         }
